@@ -155,8 +155,11 @@ def run_kaldi(cfg):
             kio.open, kenums.KaldiDataType, klog.register_logger_for_kaldi = saved
         return rc, list(state['written'])
 
+    nfr_terms = {}
+
     def body():
         c = Ctx.cur
+        nfr_terms.clear()
         state['rate'] = FmtReal(z3.Real('rate'))
         state['mind'] = FmtReal(z3.Real('mind'))
         ch = z3.Int('channel')
@@ -197,6 +200,7 @@ def run_kaldi(cfg):
                 t = PRE(z3.IntVal(i), t, rstate)
                 rstate = NEXT(rstate)
             t = CF(t)
+            nfr_terms[uid] = NFR(t)
             # utterances too short to yield a frame are stored as the (empty) computer output: post-processors
             # reject empty input, so "the pipeline result" exists only for utterances with at least one frame
             if decide(NFR(t) > 0):
@@ -229,6 +233,11 @@ def run_kaldi(cfg):
             w['mismatch%d' % u] = not z3.is_true(m.eval(z3.Real('sf%d' % u) == z3.Real('rate'), True))
             w['short%d' % u] = z3.is_true(m.eval(z3.Real('dur%d' % u) < z3.Real('mind'), True))
             w['at_min%d' % u] = z3.is_true(m.eval(z3.Real('dur%d' % u) == z3.Real('mind'), True))     # duration exactly the minimum
+        for uid_, nt in nfr_terms.items():
+            try:
+                w['nframes_' + str(uid_)] = m.eval(nt, True).as_long()      # how many frames the computer produced in this witness
+            except Exception:
+                pass
         w['class'] = 'kaldi/%s/%s' % (res[0], (res[1] if res[0] == 'exception' else '').split(':')[0])
         viol.append(w)
     samples.append({'config': cfg['name'], 'pipeline_term': 'f32(post_j(...compute_full(pre_i(...f64(chan(buf, c))...))))'})
@@ -593,6 +602,14 @@ def replay(w):
         nchan = max(1, w.get('nchan', 1))
         at_min = any(w.get('at_min%d' % u) for u in range(max(1, w.get('nutt', 1))))
         nsamp = 2000 if at_min else 1200        # 2000 samples at 8 kHz = 0.25 s exactly (also in single precision)
+        few = sorted(v for k_, v in w.items() if k_.startswith('nframes_') and isinstance(v, int) and 0 < v <= 3)
+        if few and w['kind'] == 'kaldi':
+            # the witness has an utterance with very few frames: a signal length for which the real computer gives as many
+            probe = afs(FrameComputer, json.loads(json.dumps(conf)))
+            for n_ in range(1, 400):
+                if probe.compute_full(np.zeros(n_)).shape[0] == few[0]:
+                    nsamp, at_min = n_, False
+                    break
         sigs = {'utt%d' % u: (rng.randn(nchan, nsamp) * 1000).astype(np.float64) for u in range(max(1, w.get('nutt', 1)))}
 
         def pipeline(x, with_comp=True):
